@@ -270,6 +270,11 @@ func (m *toolManager) handleCallTool(
 		errMsg := fmt.Sprintf("tool execution failed (tool: %s): %v", registeredTool.Tool.Name, err)
 		return newJSONRPCErrorResponse(req.ID, ErrCodeInternal, errMsg, nil), nil
 	}
+	if result == nil {
+		// A handler that returns neither a result nor an error must not put "result": null on the wire.
+		errMsg := fmt.Sprintf("tool execution failed (tool: %s): handler returned no result", registeredTool.Tool.Name)
+		return newJSONRPCErrorResponse(req.ID, ErrCodeInternal, errMsg, nil), nil
+	}
 
 	return result, nil
 }
